@@ -542,3 +542,438 @@ Proof.
   eexists. eexists. exists row'. split; [reflexivity|]. cbn [fst]. rewrite setitem_chain by (rewrite E; discriminate).
   split; [exact T | split; assumption].
 Qed.
+
+(* ------------------------------------------------------------ table -> tree -> table, any number of rows *)
+From Coq Require Import Permutation.
+
+Fixpoint mapfilter {A B} (f : A -> option B) (l : list A) : list B :=
+  match l with [] => [] | a :: t => match f a with Some b => b :: mapfilter f t | None => mapfilter f t end end.
+
+Lemma mapfilter_app {A B} (f : A -> option B) l l' : mapfilter f (l ++ l') = mapfilter f l ++ mapfilter f l'.
+Proof. induction l; simpl; [reflexivity|]. destruct (f a); simpl; rewrite IHl; reflexivity. Qed.
+Lemma mapfilter_map {A B C} (f : B -> option C) (g : A -> B) l : mapfilter f (map g l) = mapfilter (fun a => f (g a)) l.
+Proof. induction l; simpl; [reflexivity|]. rewrite IHl. reflexivity. Qed.
+Lemma mapfilter_ext {A B} (f g : A -> option B) l : (forall a, f a = g a) -> mapfilter f l = mapfilter g l.
+Proof. intros E. induction l; simpl; [reflexivity|]. rewrite E, IHl. reflexivity. Qed.
+Lemma mapfilter_option_map {A B C} (f : A -> option B) (g : B -> C) l :
+  mapfilter (fun a => option_map g (f a)) l = map g (mapfilter f l).
+Proof. induction l; simpl; [reflexivity|]. destruct (f a); simpl; rewrite IHl; reflexivity. Qed.
+Lemma mapfilter_none {A B} (l : list A) : mapfilter (fun _ => @None B) l = [].
+Proof. induction l; simpl; auto. Qed.
+Lemma mapfilter_flat_map {A B C} (f : B -> option C) (g : A -> list B) l :
+  mapfilter f (flat_map g l) = flat_map (fun a => mapfilter f (g a)) l.
+Proof. induction l; simpl; [reflexivity|]. rewrite mapfilter_app, IHl. reflexivity. Qed.
+Lemma Permutation_mapfilter {A B} (f : A -> option B) l l' : Permutation l l' -> Permutation (mapfilter f l) (mapfilter f l').
+Proof.
+  induction 1; simpl.
+  - constructor.
+  - destruct (f x); [constructor|]; assumption.
+  - destruct (f x), (f y); try apply Permutation_refl. apply perm_swap.
+  - eapply Permutation_trans; eassumption.
+Qed.
+Lemma flat_map_ext_in' {A B} (f g : A -> list B) l : (forall a, In a l -> f a = g a) -> flat_map f l = flat_map g l.
+Proof.
+  induction l as [|h t IH]; simpl; [reflexivity|]. intros H.
+  rewrite (H h (or_introl eq_refl)), IH; [reflexivity|]. intros a I. apply H. right. exact I.
+Qed.
+
+(* tree_to_table only sees the shape *)
+Fixpoint pt2table (t : ptree) (pat : list seg) {struct pat} : list row :=
+  match pat with
+  | [] => [[]]
+  | s :: rest =>
+      match t with
+      | PNode kids =>
+          match s with
+          | SWild x => flat_map (fun kv => map (kset x (VStr (fst kv))) (pt2table (snd kv) rest)) kids
+          | SLit k => match lookup k kids with Some c => pt2table c rest | None => [] end
+          end
+      | PLeaf v =>
+          match rest with
+          | _ :: _ => []
+          | [] => match s with SWild x => [[(x, v)]] | SLit k => if leaf_is_str v k then [[]] else [] end
+          end
+      end
+  end.
+
+Lemma t2t_shape pat : forall t, tree_to_table t pat = pt2table (shape_of t) pat.
+Proof.
+  induction pat as [|s rest IH]; intros t; [reflexivity|]. destruct t as [v|o c kids]; [reflexivity|].
+  cbn [tree_to_table pt2table shape_of]. destruct s as [k|x].
+  - rewrite lookup_map. destruct (lookup k kids); simpl; [apply IH | reflexivity].
+  - induction kids as [|h r IHk]; simpl; [reflexivity|]. rewrite IHk, IH. reflexivity.
+Qed.
+
+(* the row a path and its leaf denote under a pattern *)
+Fixpoint read (pat : list seg) (p : list string) (v : val) {struct pat} : option row :=
+  match pat with
+  | [] => None
+  | s :: rest =>
+      match rest, p with
+      | [], [] => match s with SWild x => Some [(x, v)] | SLit k => if leaf_is_str v k then Some [] else None end
+      | _ :: _, k :: p' =>
+          match s with
+          | SWild x => option_map (kset x (VStr k)) (read rest p' v)
+          | SLit k0 => if String.eqb k0 k then read rest p' v else None
+          end
+      | _, _ => None
+      end
+  end.
+
+Fixpoint uniform (n : nat) (t : ptree) {struct n} : bool :=
+  match n, t with
+  | O, PLeaf _ => true
+  | S m, PNode kids => forallb (fun kv => uniform m (snd kv)) kids
+  | _, _ => false
+  end.
+
+Lemma uniform_leaf t : uniform 0 t = true -> exists v, t = PLeaf v.
+Proof. destruct t; simpl; [eexists; reflexivity | discriminate]. Qed.
+Lemma uniform_node m t : uniform (S m) t = true -> exists kids, t = PNode kids /\ forallb (fun kv => uniform m (snd kv)) kids = true.
+Proof. destruct t; simpl; [discriminate|]. intros H. eexists; split; [reflexivity | exact H]. Qed.
+
+Lemma flat_map_lookup {A B} (F : A -> list B) k0 (kids : list (string * A)) : nodup_keys kids = true ->
+  flat_map (fun kv => if String.eqb k0 (fst kv) then F (snd kv) else []) kids =
+  match lookup k0 kids with Some c => F c | None => [] end.
+Proof.
+  induction kids as [|h r IH]; intros ND; simpl; [reflexivity|]. simpl in ND. apply andb_true_iff in ND as [N1 N2].
+  destruct (String.eqb k0 (fst h)) eqn:E.
+  - apply String.eqb_eq in E. subst k0. rewrite (IH N2).
+    fold (has_key (fst h) r) in N1. apply negb_true_iff in N1. rewrite (proj2 (lookup_none _ _) N1). apply app_nil_r.
+  - simpl. apply IH. exact N2.
+Qed.
+
+Lemma table_is_items pat : forall n t, List.length pat = S n -> uniform n t = true -> pwf t = true ->
+  pt2table t pat = mapfilter (fun it => read pat (fst it) (snd it)) (pitems t).
+Proof.
+  induction pat as [|s rest IH]; intros n t L U W; [discriminate|]. destruct rest as [|s' rest'].
+  - simpl in L. injection L as <-. destruct (uniform_leaf _ U) as (v & ->). simpl.
+    destruct s; [destruct (leaf_is_str v k)|]; reflexivity.
+  - destruct n as [|m]; [discriminate|]. simpl in L. injection L as L.
+    destruct (uniform_node _ _ U) as (kids & -> & UK). simpl in W. apply andb_true_iff in W as [ND WK].
+    remember (s' :: rest') as rest eqn:ER.
+    assert (RD : forall k p v, read (s :: rest) (k :: p) v =
+                 match s with SWild x => option_map (kset x (VStr k)) (read rest p v)
+                            | SLit k0 => if String.eqb k0 k then read rest p v else None end) by (subst rest; reflexivity).
+    assert (SUB : forall kv, In kv kids -> pt2table (snd kv) rest = mapfilter (fun it => read rest (fst it) (snd it)) (pitems (snd kv))).
+    { intros kv I. apply (IH m); [subst rest; simpl; f_equal; exact L | |].
+      - rewrite forallb_forall in UK. apply UK. exact I.
+      - rewrite forallb_forall in WK. apply WK. exact I. }
+    cbn [pitems]. rewrite mapfilter_flat_map.
+    assert (TT : pt2table (PNode kids) (s :: rest) =
+                 match s with
+                 | SWild x => flat_map (fun kv => map (kset x (VStr (fst kv))) (pt2table (snd kv) rest)) kids
+                 | SLit k => match lookup k kids with Some c => pt2table c rest | None => [] end
+                 end) by reflexivity.
+    rewrite TT. destruct s as [k0|x].
+    + rewrite <- (flat_map_lookup (fun c => pt2table c rest) k0 kids ND).
+      apply flat_map_ext_in'. intros kv I. rewrite mapfilter_map. cbn [fst snd].
+      rewrite (mapfilter_ext _ (fun it => if String.eqb k0 (fst kv) then read rest (fst it) (snd it) else None)) by (intros a; apply RD).
+      destruct (String.eqb k0 (fst kv)); [apply SUB; exact I | symmetry; apply mapfilter_none].
+    + apply flat_map_ext_in'. intros kv I. rewrite mapfilter_map. cbn [fst snd].
+      rewrite (mapfilter_ext _ (fun it => option_map (kset x (VStr (fst kv))) (read rest (fst it) (snd it)))) by (intros a; apply RD).
+      rewrite mapfilter_option_map, (SUB kv I). reflexivity.
+Qed.
+
+(* inserting a fresh path of the right length adds exactly that item *)
+Lemma lookup_In_rev {A} k (c : A) l : lookup k l = Some c -> In (k, c) l.
+Proof.
+  induction l as [|h t IH]; simpl; [discriminate|]. destruct (String.eqb k (fst h)) eqn:E.
+  - intros H. injection H as <-. apply String.eqb_eq in E. subst. left. destruct h; reflexivity.
+  - intros H. right. apply IH. exact H.
+Qed.
+
+Lemma lookup_split {A} k (c : A) l : lookup k l = Some c ->
+  exists a b, l = a ++ (k, c) :: b /\ forall x, kset k x l = a ++ (k, x) :: b.
+Proof.
+  induction l as [|h t IH]; simpl; [discriminate|]. destruct (String.eqb k (fst h)) eqn:E.
+  - intros H. injection H as <-. apply String.eqb_eq in E. subst. exists [], t. split; [destruct h; reflexivity | reflexivity].
+  - intros H. destruct (IH H) as (a & b & -> & K). exists (h :: a), b. split; [reflexivity|]. intros x. simpl. rewrite K. reflexivity.
+Qed.
+
+Fixpoint nodupk (l : list string) : bool :=
+  match l with [] => true | k :: t => negb (existsb (String.eqb k) t) && nodupk t end.
+Lemma nodup_keys_keys {A} (l : list (string * A)) : nodup_keys l = nodupk (map fst l).
+Proof.
+  induction l as [|h t IH]; simpl; [reflexivity|]. rewrite IH. f_equal. f_equal.
+  clear IH. induction t as [|h' t' IH']; simpl; [reflexivity|]. rewrite IH'. reflexivity.
+Qed.
+
+Lemma nodup_keys_snoc {A} k (x : A) l : has_key k l = false -> nodup_keys l = true -> nodup_keys (l ++ [(k, x)]) = true.
+Proof.
+  induction l as [|h t IH]; simpl; [reflexivity|]. intros H N. apply orb_false_iff in H as [H1 H2]. apply andb_true_iff in N as [N1 N2].
+  rewrite existsb_app, (IH H2 N2), andb_true_r. simpl. apply negb_true_iff in N1. rewrite N1, String.eqb_sym, H1. reflexivity.
+Qed.
+
+Lemma pitems_app a b : pitems (PNode (a ++ b)) = pitems (PNode a) ++ pitems (PNode b).
+Proof. simpl. apply flat_map_app. Qed.
+
+Lemma in_pitems_kid k c kids p v : In (k, c) kids -> In (p, v) (pitems c) -> In (k :: p, v) (pitems (PNode kids)).
+Proof.
+  intros I J. simpl. apply in_flat_map. exists (k, c). split; [exact I|]. apply in_map_iff. exists (p, v). split; [reflexivity | exact J].
+Qed.
+
+Lemma uniform_S m l : uniform (S m) (PNode l) = forallb (fun kv => uniform m (snd kv)) l.
+Proof. reflexivity. Qed.
+Lemma pwf_node l : pwf (PNode l) = nodup_keys l && forallb (fun kv => pwf (snd kv)) l.
+Proof. reflexivity. Qed.
+
+Lemma pset_fresh m : forall p v t, uniform (S m) t = true -> pwf t = true -> List.length p = S m ->
+  ~ In p (map fst (pitems t)) ->
+  uniform (S m) (pset [] p v t) = true /\ pwf (pset [] p v t) = true /\
+  Permutation (pitems (pset [] p v t)) ((p, v) :: pitems t).
+Proof.
+  induction m as [|m IH]; intros p v t U W L NI; destruct (uniform_node _ _ U) as (kids & -> & UK);
+    simpl in W; apply andb_true_iff in W as [ND WK]; destruct p as [|k p']; try discriminate; simpl in L; injection L as L.
+  - destruct p'; [|discriminate].
+    assert (HK : has_key k kids = false).
+    { destruct (has_key k kids) eqn:E; [|reflexivity]. exfalso. apply NI.
+      apply existsb_exists in E as ([k' c] & I & E). apply String.eqb_eq in E. simpl in E. subst k'.
+      rewrite forallb_forall in UK. pose proof (UK _ I) as Uc. simpl in Uc. destruct (uniform_leaf _ Uc) as (v' & ->).
+      apply in_map_iff. exists ([k], v'). split; [reflexivity|]. apply (in_pitems_kid k (PLeaf v') kids [] v' I). left. reflexivity. }
+    simpl pset. rewrite (proj2 (lookup_none _ _) HK), (kset_absent _ _ _ HK). repeat split.
+    + rewrite uniform_S, forallb_app, UK. reflexivity.
+    + rewrite pwf_node, (nodup_keys_snoc _ _ _ HK ND), forallb_app, WK. reflexivity.
+    + rewrite pitems_app. simpl. apply Permutation_sym. apply Permutation_cons_append.
+  - assert (NE : p' <> []) by (destruct p'; [discriminate | discriminate]).
+    rewrite (pset_deep _ _ _ _ _ NE). unfold child0.
+    set (f := fun it : item => (k :: fst it, snd it)).
+    destruct (lookup k kids) as [c|] eqn:LK.
+    + pose proof (lookup_In_rev _ _ _ LK) as I.
+      rewrite forallb_forall in UK, WK. pose proof (UK _ I) as Uc. pose proof (WK _ I) as Wc. simpl in Uc, Wc.
+      destruct (uniform_node _ _ Uc) as (ks & -> & _).
+      assert (NIc : ~ In p' (map fst (pitems (PNode ks)))).
+      { intros J. apply NI. apply in_map_iff in J as ([q w] & <- & J). apply in_map_iff. exists (k :: q, w). split; [reflexivity|].
+        apply (in_pitems_kid k (PNode ks) kids q w I J). }
+      destruct (IH p' v (PNode ks) Uc Wc L NIc) as (U' & W' & P').
+      destruct (lookup_split _ _ _ LK) as (a & b & -> & KS). rewrite KS.
+      assert (UA : forallb (fun kv => uniform (S m) (snd kv)) (a ++ (k, PNode ks) :: b) = true) by (apply forallb_forall; exact UK).
+      assert (WA : forallb (fun kv => pwf (snd kv)) (a ++ (k, PNode ks) :: b) = true) by (apply forallb_forall; exact WK).
+      rewrite forallb_app in UA, WA. cbn [forallb snd] in UA, WA.
+      apply andb_true_iff in UA as [UA1 UA2]. apply andb_true_iff in UA2 as [_ UA2].
+      apply andb_true_iff in WA as [WA1 WA2]. apply andb_true_iff in WA2 as [_ WA2].
+      repeat split.
+      * rewrite uniform_S, forallb_app. cbn [forallb snd]. rewrite UA1, UA2, U'. reflexivity.
+      * rewrite pwf_node, forallb_app. cbn [forallb snd]. rewrite WA1, WA2, W', !andb_true_r.
+        rewrite nodup_keys_keys in ND |- *. rewrite map_app in ND |- *. exact ND.
+      * rewrite !pitems_app. cbn [pitems flat_map fst snd]. fold (pitems (PNode b)). fold f.
+        eapply Permutation_trans; [| apply Permutation_sym, Permutation_middle].
+        apply Permutation_app_head. exact (Permutation_app_tail _ (Permutation_map f P')).
+    + assert (HK : has_key k kids = false) by (apply lookup_none; exact LK).
+      destruct (IH p' v (PNode []) eq_refl eq_refl L (fun x => x)) as (U' & W' & P').
+      rewrite (kset_absent _ _ _ HK). repeat split.
+      * rewrite uniform_S, forallb_app, UK. cbn [forallb snd]. rewrite U'. reflexivity.
+      * rewrite pwf_node, (nodup_keys_snoc _ _ _ HK ND), forallb_app, WK. cbn [forallb snd]. rewrite W'. reflexivity.
+      * rewrite pitems_app. cbn [pitems flat_map fst snd]. fold f. rewrite app_nil_r.
+        apply (Permutation_map f) in P'. simpl in P'.
+        eapply Permutation_trans; [apply Permutation_app_head; exact P'|]. apply Permutation_sym. apply Permutation_cons_append.
+Qed.
+
+Lemma pset_all_fresh m its : forall t, uniform (S m) t = true -> pwf t = true ->
+  Forall (fun it => List.length (fst it) = S m) its -> NoDup (map fst its) ->
+  (forall it, In it its -> ~ In (fst it) (map fst (pitems t))) ->
+  uniform (S m) (pset_all [] its t) = true /\ pwf (pset_all [] its t) = true /\
+  Permutation (pitems (pset_all [] its t)) (its ++ pitems t).
+Proof.
+  induction its as [|it r IH]; intros t U W F ND K; [repeat split; assumption || apply Permutation_refl|].
+  inversion F as [|? ? Fi Fr]; subst. simpl in ND. inversion ND as [|? ? Ni NDr]; subst.
+  destruct it as [p v]. simpl in Fi, Ni.
+  destruct (pset_fresh m p v t U W Fi (K (p, v) (or_introl eq_refl))) as (U' & W' & P').
+  rewrite pset_all_cons. cbn [fst snd].
+  destruct (IH (pset [] p v t) U' W' Fr NDr) as (U2 & W2 & P2).
+  { intros it' I J. apply (Permutation_in _ (Permutation_map fst P')) in J. simpl in J. destruct J as [J|J].
+    - apply Ni. rewrite J. apply in_map. exact I.
+    - apply (K it' (or_intror I)). exact J. }
+  repeat split; try assumption.
+  eapply Permutation_trans; [exact P2|]. eapply Permutation_trans; [apply Permutation_app_head; exact P'|].
+  apply Permutation_sym. apply (Permutation_middle r (pitems t) (p, v)).
+Qed.
+
+(* rows and their items *)
+Lemma row_item_length (r : row) : forall pat it, row_item r pat = Some it -> List.length pat = S (List.length (fst it)).
+Proof.
+  induction pat as [|s rest IH]; intros it H; [discriminate|]. destruct rest as [|s' rest'].
+  - simpl in H. destruct (seg_value r s); [|discriminate]. injection H as <-. reflexivity.
+  - remember (s' :: rest') as rest.
+    assert (H' : match seg_value r s, row_item r rest with
+                 | Some v, Some it0 => match key_of v with Some k => Some (k :: fst it0, snd it0) | None => None end
+                 | _, _ => None end = Some it) by (subst rest; exact H).
+    destruct (seg_value r s); [|discriminate]. destruct (row_item r rest) as [it0|] eqn:RI; [|discriminate].
+    destruct (key_of v); [|discriminate]. injection H' as <-. simpl. rewrite (IH it0 eq_refl). reflexivity.
+Qed.
+
+Definition row_agrees (pat : list seg) (r row' : row) : Prop :=
+  (forall x, In x (wilds pat) -> lookup x row' = lookup x r) /\ (forall x, ~ In x (wilds pat) -> lookup x row' = None).
+
+Lemma read_row_item (r : row) : forall pat it, row_item r pat = Some it -> NoDup (wilds pat) ->
+  exists row', read pat (fst it) (snd it) = Some row' /\ row_agrees pat r row'.
+Proof.
+  induction pat as [|s rest IH]; intros it H ND; [discriminate|]. destruct rest as [|s' rest'].
+  - simpl in H. destruct (seg_value r s) as [v|] eqn:SV; [|discriminate]. injection H as <-. simpl.
+    destruct s as [k|x]; simpl in SV.
+    + injection SV as <-. simpl. rewrite String.eqb_refl. exists []. split; [reflexivity|]. split; intros x I; [destruct I | reflexivity].
+    + exists [(x, v)]. split; [reflexivity|]. split.
+      * intros y [<-|[]]. simpl. rewrite String.eqb_refl. symmetry. exact SV.
+      * intros y NI. simpl. destruct (String.eqb y x) eqn:E; [|reflexivity]. apply String.eqb_eq in E. subst. elim NI. left. reflexivity.
+  - remember (s' :: rest') as rest eqn:ER.
+    assert (H' : match seg_value r s, row_item r rest with
+                 | Some v, Some it0 => match key_of v with Some k => Some (k :: fst it0, snd it0) | None => None end
+                 | _, _ => None end = Some it) by (subst rest; exact H).
+    clear H. destruct (seg_value r s) as [v|] eqn:SV; [|discriminate].
+    destruct (row_item r rest) as [it0|] eqn:RI; [|discriminate].
+    destruct (key_of v) as [k|] eqn:KO; [|discriminate]. injection H' as <-. apply key_of_str in KO. subst v.
+    assert (ND' : NoDup (wilds rest)) by (destruct s; simpl in ND; [exact ND | inversion ND; assumption]).
+    destruct (IH it0 eq_refl ND') as (row'' & T & A & B).
+    assert (RD : read (s :: rest) (k :: fst it0) (snd it0) =
+                 match s with SWild x => option_map (kset x (VStr k)) (read rest (fst it0) (snd it0))
+                            | SLit k0 => if String.eqb k0 k then read rest (fst it0) (snd it0) else None end) by (subst rest; reflexivity).
+    cbn [fst snd]. rewrite RD, T. destruct s as [k0|x]; simpl in SV.
+    + injection SV as ->. rewrite String.eqb_refl. exists row''. split; [reflexivity|]. split; simpl wilds; assumption.
+    + simpl. exists (kset x (VStr k) row''). split; [reflexivity|].
+      simpl wilds in ND |- *. inversion ND as [|? ? NI ND2]; subst. split.
+      * intros y [<-|I]; [rewrite lookup_kset_same; symmetry; exact SV|].
+        rewrite lookup_kset_other; [apply A; exact I | intros ->; contradiction].
+      * intros y NI'. rewrite lookup_kset_other; [apply B; intros I; apply NI'; right; exact I | intros ->; apply NI'; left; reflexivity].
+Qed.
+
+Lemma rows_items_each rows pat : forall its, rows_items rows pat = Some its -> Forall2 (fun r it => row_item r pat = Some it) rows its.
+Proof.
+  induction rows as [|r t IH]; intros its H; simpl in H; [injection H as <-; constructor|].
+  destruct (row_item r pat) eqn:R; [|discriminate]. destruct (rows_items t pat) eqn:T; [|discriminate].
+  injection H as <-. constructor; [exact R | apply IH; reflexivity].
+Qed.
+
+Theorem table_tree_inverse_rows cow pat rows its : rows_items rows pat = Some its -> (2 <= List.length pat)%nat ->
+  NoDup (wilds pat) -> NoDup (map fst its) ->
+  exists t w rows', table_to_tree cow None pat rows = Some (t, w) /\
+                    Permutation (tree_to_table t pat) rows' /\ Forall2 (row_agrees pat) rows rows'.
+Proof.
+  intros RI L2 NDW NDP. pose proof (rows_items_each _ _ _ RI) as F2.
+  destruct pat as [|s0 [|s1 pat']]; simpl in L2; try lia.
+  set (pat := s0 :: s1 :: pat') in *. set (m := List.length pat').
+  assert (FL : Forall (fun it => List.length (fst it) = S m) its).
+  { clear - F2. induction F2 as [|r it rs its' H _ IH]; constructor; [|exact IH].
+    apply row_item_length in H. simpl in H. unfold m. lia. }
+  assert (FN : Forall (fun it => fst it <> []) its).
+  { eapply Forall_impl; [|exact FL]. simpl. intros it E X. rewrite X in E. discriminate. }
+  unfold table_to_tree. rewrite RI.
+  destruct (set_all_some cow 2 [] its FN (Node true 2 [], false)) as ([t w] & HS).
+  exists t, w, (mapfilter (fun it => read pat (fst it) (snd it)) its). split; [exact HS|].
+  apply set_all_shape in HS. change (shape_of (Node true 2 [])) with (PNode []) in HS.
+  destruct (pset_all_fresh m its (PNode []) eq_refl eq_refl FL NDP (fun _ _ x => x)) as (U & W & P).
+  rewrite app_nil_r in P. split.
+  - rewrite t2t_shape, HS. rewrite (table_is_items pat (S m) _ eq_refl U W). apply Permutation_mapfilter. exact P.
+  - clear - F2 NDW. induction F2 as [|r it rs its' H _ IH]; cbn [mapfilter]; [constructor|].
+    destruct (read_row_item r pat it H NDW) as (row' & -> & A). constructor; [exact A | exact IH].
+Qed.
+
+(* ------------------------------------------------------------ ... and back: tree -> rows -> tree for trees built from rows *)
+Lemma row_item_ext (r r' : row) : forall pat, (forall y, In y (wilds pat) -> lookup y r = lookup y r') -> row_item r pat = row_item r' pat.
+Proof.
+  induction pat as [|s rest IH]; intros E; [reflexivity|].
+  assert (SV : seg_value r s = seg_value r' s) by (destruct s; simpl; [reflexivity | apply E; left; reflexivity]).
+  assert (RI : row_item r rest = row_item r' rest) by (apply IH; intros y I; apply E; destruct s; simpl; [exact I | right; exact I]).
+  destruct rest as [|s' rest']; simpl; [rewrite SV; reflexivity|]. simpl in RI. rewrite SV, RI. reflexivity.
+Qed.
+
+Lemma leaf_is_str_eq v k : leaf_is_str v k = true -> v = VStr k.
+Proof. destruct v; simpl; try discriminate. intros H. apply String.eqb_eq in H. congruence. Qed.
+
+Lemma read_inv : forall pat p v row', read pat p v = Some row' -> NoDup (wilds pat) -> row_item row' pat = Some (p, v).
+Proof.
+  induction pat as [|s rest IH]; intros p v row' H ND; [discriminate|]. destruct rest as [|s' rest'].
+  - destruct p; [|destruct s; discriminate]. simpl in H. destruct s as [k|x].
+    + destruct (leaf_is_str v k) eqn:E; [|discriminate]. injection H as <-. apply leaf_is_str_eq in E. subst. reflexivity.
+    + injection H as <-. simpl. rewrite String.eqb_refl. reflexivity.
+  - remember (s' :: rest') as rest eqn:ER. destruct p as [|k p']; [subst rest; destruct s; discriminate|].
+    assert (RD : read (s :: rest) (k :: p') v =
+                 match s with SWild x => option_map (kset x (VStr k)) (read rest p' v)
+                            | SLit k0 => if String.eqb k0 k then read rest p' v else None end) by (subst rest; reflexivity).
+    assert (RI : forall r, row_item r (s :: rest) =
+                 match seg_value r s, row_item r rest with
+                 | Some v0, Some it0 => match key_of v0 with Some k1 => Some (k1 :: fst it0, snd it0) | None => None end
+                 | _, _ => None end) by (subst rest; reflexivity).
+    rewrite RD in H. rewrite RI. destruct s as [k0|x].
+    + destruct (String.eqb k0 k) eqn:E; [|discriminate]. apply String.eqb_eq in E. subst k0.
+      simpl in ND. rewrite (IH p' v row' H ND). reflexivity.
+    + destruct (read rest p' v) as [row''|] eqn:R; [|discriminate]. injection H as <-.
+      simpl in ND. inversion ND as [|a0 b0 NI ND2]; subst a0 b0.
+      simpl seg_value. rewrite lookup_kset_same.
+      rewrite (row_item_ext (kset x (VStr k) row'') row'' rest), (IH p' v row'' R ND2); [reflexivity|].
+      intros y I. apply lookup_kset_other. intros ->. contradiction.
+Qed.
+
+Lemma rows_items_read pat l : NoDup (wilds pat) -> Forall (fun it => exists row', read pat (fst it) (snd it) = Some row') l ->
+  rows_items (mapfilter (fun it => read pat (fst it) (snd it)) l) pat = Some l.
+Proof.
+  intros ND F. induction F as [|it r (row' & R) _ IH]; [reflexivity|].
+  cbn [mapfilter]. rewrite R. cbn [rows_items]. rewrite (read_inv _ _ _ _ R ND), IH. destruct it; reflexivity.
+Qed.
+
+Lemma forallb_kset {A} (f : string * A -> bool) k x l : forallb f l = true -> f (k, x) = true -> forallb f (kset k x l) = true.
+Proof.
+  induction l as [|h t IH]; simpl; intros H Hx; [rewrite Hx; reflexivity|]. apply andb_true_iff in H as [H1 H2].
+  destruct (String.eqb k (fst h)); simpl; [rewrite Hx, H2 | rewrite H1, IH by assumption]; reflexivity.
+Qed.
+
+Lemma kset_nonempty {A} k (x : A) l : kset k x l <> [].
+Proof. destruct l; simpl; [discriminate|]. destruct (String.eqb k (fst p)); discriminate. Qed.
+
+Definition full_kid (kv : string * ptree) : bool := match snd kv with PNode [] => false | _ => pfull (snd kv) end.
+Lemma pfull_node l : pfull (PNode l) = forallb full_kid l.
+Proof. reflexivity. Qed.
+
+Lemma pset_full : forall p v kids, p <> [] -> pfull (PNode kids) = true ->
+  pfull (pset [] p v (PNode kids)) = true /\ pset [] p v (PNode kids) <> PNode [].
+Proof.
+  induction p as [|k p IH]; intros v kids NE F; [contradiction|]. destruct p as [|k' rest].
+  - simpl. destruct (lookup k kids); (split; [rewrite pfull_node; apply forallb_kset; [exact F | reflexivity] | intros X; injection X as X; exact (kset_nonempty _ _ _ X)]).
+  - rewrite pset_deep by discriminate. split; [|intros X; injection X as X; exact (kset_nonempty _ _ _ X)].
+    rewrite pfull_node. apply forallb_kset; [exact F|]. unfold full_kid. cbn [snd].
+    assert (C : exists ks, child0 k kids = PNode ks /\ pfull (PNode ks) = true).
+    { unfold child0. destruct (lookup k kids) as [[v0|ks]|] eqn:L; try (exists []; split; reflexivity).
+      exists ks. split; [reflexivity|]. apply lookup_In_rev in L. rewrite pfull_node, forallb_forall in F.
+      specialize (F _ L). unfold full_kid in F. simpl in F. destruct ks; [discriminate | exact F]. }
+    destruct C as (ks & -> & Fk). destruct (IH v ks ltac:(discriminate) Fk) as (F' & N').
+    destruct (pset [] (k' :: rest) v (PNode ks)) as [|[|? ?]] eqn:E; [reflexivity | contradiction | exact F'].
+Qed.
+
+Lemma pset_all_full its : Forall (fun it => fst it <> []) its -> forall kids, pfull (PNode kids) = true ->
+  pfull (pset_all [] its (PNode kids)) = true.
+Proof.
+  induction 1 as [|it r Hit _ IH]; intros kids F; [exact F|]. rewrite pset_all_cons.
+  destruct (pset_node [] (fst it) (snd it) kids) as (ks & E). rewrite E. apply IH. rewrite <- E. apply pset_full; assumption.
+Qed.
+
+Theorem tree_table_tree_rows cow cow' pat rows its : rows_items rows pat = Some its -> (2 <= List.length pat)%nat ->
+  NoDup (wilds pat) -> NoDup (map fst its) ->
+  exists t w t' w', table_to_tree cow None pat rows = Some (t, w) /\
+                    table_to_tree cow' None pat (tree_to_table t pat) = Some (t', w') /\ shape_of t' = shape_of t.
+Proof.
+  intros RI L2 NDW NDP. pose proof (rows_items_each _ _ _ RI) as F2.
+  destruct pat as [|s0 [|s1 pat']]; simpl in L2; try lia.
+  set (pat := s0 :: s1 :: pat') in *. set (m := List.length pat').
+  assert (FL : Forall (fun it => List.length (fst it) = S m) its).
+  { clear - F2. induction F2 as [|r it rs its' H _ IH]; constructor; [|exact IH].
+    apply row_item_length in H. simpl in H. unfold m. lia. }
+  assert (FN : Forall (fun it => fst it <> []) its).
+  { eapply Forall_impl; [|exact FL]. simpl. intros it E X. rewrite X in E. discriminate. }
+  assert (FR : Forall (fun it => exists row', read pat (fst it) (snd it) = Some row') its).
+  { clear - F2 NDW. induction F2 as [|r it rs its' H _ IH]; constructor; [|exact IH].
+    destruct (read_row_item r pat it H NDW) as (row' & R & _). exists row'. exact R. }
+  unfold table_to_tree at 1. rewrite RI.
+  destruct (set_all_some cow 2 [] its FN (Node true 2 [], false)) as ([t w] & HS).
+  exists t, w. pose proof (set_all_shape _ _ _ _ _ _ _ _ HS) as SH. change (shape_of (Node true 2 [])) with (PNode []) in SH.
+  destruct (pset_all_fresh m its (PNode []) eq_refl eq_refl FL NDP (fun _ _ x => x)) as (U & W & P).
+  rewrite app_nil_r in P.
+  pose proof (pset_all_full its FN [] eq_refl) as FU.
+  destruct (pset_all_node [] its []) as (kt & ET). rewrite ET in *.
+  assert (FR' : Forall (fun it => exists row', read pat (fst it) (snd it) = Some row') (pitems (PNode kt))).
+  { apply Forall_forall. intros it I. rewrite Forall_forall in FR. apply FR. eapply Permutation_in; [exact P | exact I]. }
+  unfold table_to_tree. rewrite t2t_shape, SH, (table_is_items pat (S m) _ eq_refl U W), (rows_items_read pat _ NDW FR').
+  destruct (set_all_some cow' 2 [] _ (pitems_node_paths kt) (Node true 2 [], false)) as ([t' w'] & HS').
+  exists t', w'. split; [exact HS|]. split; [exact HS'|].
+  apply set_all_shape in HS'. change (shape_of (Node true 2 [])) with (PNode []) in HS'. rewrite HS'.
+  rewrite pset_all_is_pmerge; [| eexists; reflexivity | eexists; reflexivity | exact FU].
+  apply (pmerge_empty _ _ eq_refl W FU).
+Qed.
